@@ -3,6 +3,7 @@ package lazy
 import (
 	"encoding/json"
 	"fmt"
+	"math"
 	"testing"
 
 	"github.com/CrowdStrike/csproto"
@@ -577,14 +578,87 @@ func genLCase(t *rapid.T) *LCase {
 	return c
 }
 
-const ruleC13 = "case = schema-free message (0..5 distinct numbers incl. 2^26 and 2^29-1, per number a plan {varint, fixed32, fixed64, bytes incl. empty, packed varint/fixed32/fixed64, nested message incl. empty, depth <= 3}, 0..5 occurrences interleaved in random order, unrequested numbers may mix wire types) + definition (random subset of present numbers, absent numbers, nested definitions, negative tags, misfit nested declarations) + 1..6 queries (tag path, accessor out of all 26 + NestedResult(s), route FieldData/FieldData(path)/helper/NestedResults) x {safe, fast} x {Decode function, fresh Decoder, Decoder with WithMaxBufferSize {0,1,2,3,8,1024} that has already decoded, served the same queries for and closed an earlier message built from 1..3 copies of the case's message and an unrelated one}; 1 in 5 inputs mutated (truncate, overwrite, hostile length, random bytes); " +
+const ruleC13 = "deterministic sweep: every accessor x 28 values at and just beyond the limits of the 32/64-bit Go types (and their zig-zag / float-bit images) x {single occurrence, two occurrences, packed run with the value in the middle / last, two runs} x {FieldData method, helper function} x {Decode function, Decoder safe, Decoder fast}; then random cases: schema-free message (0..5 distinct numbers incl. 2^26 and 2^29-1, per number a plan {varint, fixed32, fixed64, bytes incl. empty, packed varint/fixed32/fixed64, nested message incl. empty, depth <= 3}, 0..5 occurrences interleaved in random order, unrequested numbers may mix wire types) + definition (random subset of present numbers, absent numbers, nested definitions, negative tags, misfit nested declarations) + 1..6 queries (tag path, accessor out of all 26 + NestedResult(s), route FieldData/FieldData(path)/helper/NestedResults) x {safe, fast} x {Decode function, fresh Decoder, Decoder with WithMaxBufferSize {0,1,2,3,8,1024} that has already decoded, served the same queries for and closed an earlier message built from 1..3 copies of the case's message and an unrelated one}; 1 in 5 inputs mutated (truncate, overwrite, hostile length, random bytes); " +
 	"oracle: refwire parse of the same bytes + accessor table (last occurrence, all occurrences with packed runs expanded, sub-message values, raw bytes for negative tags, not-found / not-defined / mismatch / overflow classes via errors.Is/As); malformed: no panic; " +
 	"non-trivial = >= 2 distinct numbers on the wire and >= 1 requested number present, or malformed input; distinct by (bytes, definition, queries)"
+
+var minI32 = func() uint64 { v := int64(math.MinInt32); return uint64(v) }()
+
+// limitValues: raw 64-bit values at and just beyond the limits of every accessor's Go type (as varint payloads;
+// truncated to 4 / 8 bytes for the fixed accessors, zig-zag images of the same limits included).
+var limitValues = []uint64{0, 1, 2, 127, 128, 1<<31 - 2, 1<<31 - 1, 1 << 31, 1<<31 + 1, 1<<32 - 2, 1<<32 - 1, 1 << 32, 1<<32 + 1,
+	1<<63 - 1, 1 << 63, 1<<63 + 1, ^uint64(0), ^uint64(0) - 1,
+	minI32, minI32 - 1, minI32 + 1,
+	0x7fc00000, 0x7f800000, 0xff800000, 0x80000000, 0x7ff8000000000000, 0x7ff0000000000000, 0x8000000000000000}
+
+// sweepC13 enumerates accessor x limit value x occurrence shape x route x mode x entry on a one-tag definition.
+func sweepC13(yield func(*LCase)) {
+	for ai := range accessors {
+		a := &accessors[ai]
+		enc := func(v uint64) []byte { // one element of a's wire type
+			switch {
+			case a.isLen:
+				return nil
+			case a.width == 4:
+				return refwire.AppendFixed32(nil, uint32(v))
+			case a.width == 8:
+				return refwire.AppendFixed64(nil, v)
+			}
+			return refwire.AppendVarint(nil, v)
+		}
+		for vi, v := range limitValues {
+			other := limitValues[(vi+5)%len(limitValues)]
+			var shapes [][]byte
+			if a.isLen {
+				payload := refwire.AppendFixed64(nil, v)[:vi%9]
+				shapes = append(shapes,
+					refwire.AppendLen(refwire.AppendKey(nil, 1, refwire.WTLen), payload),
+					append(refwire.AppendLen(refwire.AppendKey(nil, 1, refwire.WTLen), []byte("earlier")), refwire.AppendLen(refwire.AppendKey(nil, 1, refwire.WTLen), payload)...))
+			} else {
+				one := append(refwire.AppendKey(nil, 1, a.wt), enc(v)...)
+				two := append(append(refwire.AppendKey(nil, 1, a.wt), enc(other)...), one...)
+				run := refwire.AppendLen(refwire.AppendKey(nil, 1, refwire.WTLen), append(append(enc(other), enc(v)...), enc(other^1)...))
+				runLast := refwire.AppendLen(refwire.AppendKey(nil, 1, refwire.WTLen), append(enc(other), enc(v)...))
+				shapes = append(shapes, one, two, run, runLast, append(append([]byte{}, run...), runLast...))
+			}
+			for _, in := range shapes {
+				for _, route := range []string{"fd", "helper"} {
+					for mode := 0; mode < 2; mode++ {
+						for entry := 0; entry < 2; entry++ {
+							if entry == 0 && mode == 1 {
+								continue // the Decode function is safe mode only
+							}
+							yield(&LCase{In: in, Def: DefSpec{Tags: []DefTag{{Tag: 1}}}, Mode: mode, Entry: entry,
+								Queries: []Query{{Path: []int{1}, Acc: a.name, Route: route}}})
+						}
+					}
+				}
+			}
+		}
+	}
+}
 
 func TestC13(t *testing.T) {
 	rec := ev.New("C13", ruleC13)
 	defer rec.Write()
 	defer func() { t.Log(rec.Summary()) }()
+	shard, shards := ev.Shard()
+	idx := 0
+	sweepC13(func(c *LCase) {
+		idx++
+		if idx%shards != shard {
+			return
+		}
+		f, wf := oracleC13(c)
+		if !wf {
+			panic("harness: a sweep case is not well-formed")
+		}
+		rec.Eval(1)
+		rec.Class("sweep/" + c.Queries[0].Acc)
+		cj, _ := json.Marshal(c)
+		rec.NonTrivial(ev.FP(cj))
+		rec.Check(t, "lcase", c, f)
+	})
 	ev.Rapid(t, ev.N(60000, 3000000), 13, func(rt *rapid.T) {
 		c := genLCase(rt)
 		rec.Journal("lcase", c)
